@@ -8,11 +8,17 @@ Everything is read from the AST (nothing is imported except one table value), fa
    of `closefd`; every handler must end with a bare `raise`;
  * lib.read_las: the `closefd` expression forwarded to open_las and the `with ... : return reader.read()` shape;
  * LasReader / LasWriter / LasAppender: what `__init__` stores in `self.closefd`, the close actions of `close` as a function
-   of (closefd, point source created?, source present?), that `__exit__` is `self.close()`;
- * UncompressedPointReader.close, EmptyPointReader.close (the objects the reader delegates to), which of them
-   `_create_point_source` builds for an uncompressed file and whether it is given the source, the lazy `point_source` property;
+   of (closefd, point source created?, source present?), that `__exit__` is `self.close()`; a reader's close that reaches the
+   point source through the lazy property (`self.point_source.close()`: ActLazyPS - it builds the point source, and raises when it
+   cannot be built) is translated when it is the last statement the method executes;
+ * UncompressedPointReader.close, EmptyPointReader.close (the objects the reader delegates to), which point source
+   `_create_point_source` builds - the file having points or not, its points being flagged as compressed or not: for a LAZ-flagged
+   file with points `_create_laz_backend(source)`, which returns the reader a backend built or raises (PKBackend) - and whether it
+   is given the source, the lazy `point_source` property; what LasAppender raises on a LAZ-flagged file when no backend can append;
  * LasData._write_to: the constant `closefd` it gives to LasWriter, used inside a `with`;
- * LasHeader._prefetch_header_data / read_evlrs / read_from: the sequence of operations performed on the caller's stream;
+ * LasHeader._prefetch_header_data / read_evlrs / read_from: the sequence of operations performed on the caller's stream (the second
+   read of the prefetch is `offset_to_data - len(header_bytes)` bytes - or min(that, a module level integer): SReadToOffsetMax, with
+   which the position theorem no longer checks);
  * the seekability questions: how LasHeader.read_evlrs and LasReader.read ask (`x.seekable()` or "the object's seekable() if
    it has one, otherwise False"), and whether read_evlrs asks once before its tests or as the second operand of
    `self.number_of_evlrs > 0 and ..` (then only files that announce EVLRs make it ask).
@@ -35,9 +41,13 @@ Inductive omode := MR | MW | MA.
 (* LaspyException and subclasses | any other Exception subclass | a BaseException that is not an Exception (KeyboardInterrupt ..) *)
 Inductive exn := XLaspy | XOther | XBase.
 Inductive catch_class := CatchAll | CatchException | CatchLaspy.
-Inductive cact := ActSrc | ActPS.                 (* close the stream this object holds | close the point source *)
-Inductive ps_kind := PKUncompressed (src_given : bool) | PKEmpty (src_given : bool).
-Inductive sop := SRead (n : Z) | SReadToOffset | STellSave | SSeekEvlrStart | SReadEvlrs | SSeekSaved.
+(* close the stream this object holds | close the point source the reader has | `self.point_source.close()`: close the point source
+   reached through the lazy property, which builds it when there is none yet - and raises when it cannot be built *)
+Inductive cact := ActSrc | ActPS | ActLazyPS.
+(* PKBackend: the reader a LAZ backend builds (LasReader._create_laz_backend): it is returned by a backend, or building it raises *)
+Inductive ps_kind := PKUncompressed (src_given : bool) | PKEmpty (src_given : bool) | PKBackend (src_given : bool).
+(* SReadToOffsetMax m: read(min(offset_to_point_data - what was read so far, m)) *)
+Inductive sop := SRead (n : Z) | SReadToOffset | SReadToOffsetMax (m : Z) | STellSave | SSeekEvlrStart | SReadEvlrs | SSeekSaved.
 (* how the code asks an object whether it can seek: `obj.seekable()` (AttributeError when the object has no such attribute) |
    `getattr(obj, "seekable", lambda: False)()`: the object's answer if it can give one, otherwise False *)
 Inductive squery := QCall | QGetattrFalse.
@@ -501,6 +511,24 @@ def gen_ownership(repo):
             if len(f.args.args) != 1:
                 raise Untranslatable(f"{cls_name}.close takes arguments")
             t, faults = CloseTr(conds, closes).block2(f.body)
+            if "ActLazyPS" in closes.values():
+                # an action that may raise (the point source is built on the way) must be the last statement the method executes:
+                # the model runs nothing after it
+                def tail_ok(stmts, tail):
+                    stmts = strip_doc(stmts)
+                    for i, st in enumerate(stmts):
+                        last = tail and i == len(stmts) - 1
+                        if isinstance(st, ast.If):
+                            if not (tail_ok(st.body, last) and tail_ok(st.orelse, last)):
+                                return False
+                        elif isinstance(st, ast.Try):
+                            if any(closes.get(ast.unparse(x)) == "ActLazyPS" for x in ast.walk(st) if isinstance(x, ast.Expr)):
+                                return False
+                        elif closes.get(ast.unparse(st)) == "ActLazyPS" and not last:
+                            return False
+                    return True
+                if not tail_ok(f.body, True):
+                    raise Untranslatable(f"{cls_name}.close: statements may run after `self.point_source.close()`, which can raise")
             return (f"Definition {name} (closefd has_ps src_some : bool) : list cact := {t}.\n"
                     f"(* the statements of {cls_name}.close that may use the stream and raise, with the close actions run all the same *)\n"
                     f"Definition {name}_faults (closefd has_ps src_some : bool) : list fault_point := [" + "; ".join(faults) + "].\n")
@@ -510,7 +538,7 @@ def gen_ownership(repo):
         "laspy/lasreader.py", "LasReader", "gen_close_reader",
         {"self.closefd": "closefd", "self._point_source is not None": "has_ps", "self._point_source is None": "(negb has_ps)",
          "self._source is not None": "src_some"},
-        {"self._point_source.close()": "ActPS", "self._source.close()": "ActSrc"}))
+        {"self._point_source.close()": "ActPS", "self._source.close()": "ActSrc", "self.point_source.close()": "ActLazyPS"}))
     o.add("gen_close_writer", close_of(
         "laspy/laswriter.py", "LasWriter", "gen_close_writer",
         {"self.closefd": "closefd"}, {"self.dest.close()": "ActSrc"}))
@@ -586,17 +614,34 @@ def gen_ownership(repo):
         if [a.arg for a in f.args.args] != ["self", "source"]:
             raise Untranslatable("_create_point_source signature")
 
+        def backend_branch(stmts):
+            """`return self._create_laz_backend(source)`, or `x = self._create_laz_backend(source)` [`if x is None: raise ..`] `return x`:
+            the reader a backend built, or an exception"""
+            made = "self._create_laz_backend(source)"
+            if len(stmts) == 1 and ast.unparse(stmts[0]) == f"return {made}":
+                return True
+            if len(stmts) in (2, 3) and isinstance(stmts[0], ast.Assign) and len(stmts[0].targets) == 1 and isinstance(stmts[0].targets[0], ast.Name) \
+                    and ast.unparse(stmts[0].value) == made:
+                x = stmts[0].targets[0].id
+                mid = stmts[1:-1]
+                ok_mid = all(isinstance(m, ast.If) and ast.unparse(m.test) == f"{x} is None" and not m.orelse and len(m.body) == 1
+                             and isinstance(m.body[0], ast.Raise) for m in mid)
+                return ok_mid and ast.unparse(stmts[-1]) == f"return {x}"
+            return False
+
         def walk(stmts):
             stmts = strip_doc(stmts)
+            if backend_branch(stmts):
+                return "PKBackend true"
             if len(stmts) != 1:
                 raise Untranslatable("_create_point_source: branch with several statements")
             s = stmts[0]
             if isinstance(s, ast.If):
                 t = ast.unparse(s.test)
                 if t == "self.header.are_points_compressed":
-                    return walk(s.orelse)          # the model covers uncompressed files
+                    return f"(if compressed then {walk(s.body)} else {walk(s.orelse)})"
                 if t == "not self.header.are_points_compressed":
-                    return walk(s.body)
+                    return f"(if compressed then {walk(s.orelse)} else {walk(s.body)})"
                 if t == "self.header.point_count > 0":
                     return f"(if count_pos then {walk(s.body)} else {walk(s.orelse)})"
                 if t in ("self.header.point_count == 0", "self.header.point_count <= 0"):
@@ -625,8 +670,31 @@ def gen_ownership(repo):
             prop = find_func(c, "source")
             if [ast.unparse(s) for s in strip_doc(prop.body)] != ["return self._source"]:
                 raise Untranslatable(f"{cn}.source is not `return self._source`")
-        return ("(* the point source built on first use for an uncompressed file, and whether it is handed the reader's source *)\n"
-                f"Definition gen_point_source_kind (count_pos : bool) : ps_kind := {body}.\n")
+        # LasReader._create_laz_backend: the source is only handed to a backend's create_reader, nothing is closed, and the
+        # function ends by raising: it returns a reader a backend built or it raises
+        if "PKBackend" in body:
+            g = find_func(cls, "_create_laz_backend")
+            if [a.arg for a in g.args.args] != ["self", "source"]:
+                raise Untranslatable("_create_laz_backend signature")
+            if MENTIONS_CLOSE.search(ast.unparse(g)):
+                raise Untranslatable("_create_laz_backend closes something")
+            allowed = set()
+            for n in ast.walk(g):
+                if isinstance(n, ast.Call) and isinstance(n.func, ast.Attribute) and n.func.attr == "create_reader" and n.args \
+                        and isinstance(n.args[0], ast.Name) and n.args[0].id == "source":
+                    allowed.add(id(n.args[0]))
+            for n in ast.walk(g):
+                if isinstance(n, ast.Name) and n.id == "source" and id(n) not in allowed:
+                    raise Untranslatable("_create_laz_backend uses the source otherwise than as the argument of a backend's create_reader")
+            gb = strip_doc(g.body)
+            if not gb or not isinstance(gb[-1], ast.Raise):
+                raise Untranslatable("_create_laz_backend does not end by raising when no backend gave a reader")
+            for n in ast.walk(g):
+                if isinstance(n, ast.Return) and (n.value is None or not isinstance(n.value, ast.Name)):
+                    raise Untranslatable("_create_laz_backend returns something else than the reader a backend built")
+        return ("(* the point source built on first use, the file having points or not, its points being flagged as compressed or not, and\n"
+                "   whether it is handed the reader's source *)\n"
+                f"Definition gen_point_source_kind (count_pos compressed : bool) : ps_kind := {body}.\n")
     o.add("gen_point_source_kind", ps_kind)
 
     def lazy():
@@ -662,6 +730,43 @@ def gen_ownership(repo):
             raise Untranslatable("LasAppender.__init__ does not read the header right after the seekability test")
         return f"Definition gen_appender_nonseekable_exn : exn := {x}.\n"
     o.add("gen_appender_nonseekable_exn", app_seek)
+
+    def app_laz():
+        """LasAppender on a file whose points are flagged as compressed: `self.points_appender = self._create_laz_backend(laz_backend)`
+        inside __init__ (hence inside the try of open_las); _create_laz_backend returns what a backend's create_appender built or
+        raises - every `raise` of one class, failures of the backends being caught (`except Exception`) and wrapped"""
+        cls = find_class(parse(repo, "laspy/lasappender.py"), "LasAppender")
+        f = find_func(cls, "__init__")
+        found = [n for n in ast.walk(f) if isinstance(n, ast.If) and ast.unparse(n.test) in ("not header.are_points_compressed", "header.are_points_compressed")]
+        if len(found) != 1 or found[0] not in f.body:
+            raise Untranslatable("LasAppender.__init__: the switch on header.are_points_compressed")
+        n = found[0]
+        laz = n.orelse if ast.unparse(n.test).startswith("not") else n.body
+        if [ast.unparse(x) for x in laz] != ["self.points_appender = self._create_laz_backend(laz_backend)"]:
+            raise Untranslatable("LasAppender.__init__: the compressed branch is not `self.points_appender = self._create_laz_backend(laz_backend)`")
+        g = find_func(cls, "_create_laz_backend")
+        if MENTIONS_CLOSE.search(ast.unparse(g)):
+            raise Untranslatable("LasAppender._create_laz_backend closes something")
+        classes = set()
+        for m in ast.walk(g):
+            if isinstance(m, ast.Raise):
+                if not (isinstance(m.exc, ast.Call) and isinstance(m.exc.func, (ast.Name, ast.Attribute))):
+                    raise Untranslatable("LasAppender._create_laz_backend: a raise that is not `raise Class(..)`")
+                classes.add(ast.unparse(m.exc.func))
+            if isinstance(m, ast.Return) and not (isinstance(m.value, ast.Call) and ast.unparse(m.value.func).endswith(".create_appender")):
+                raise Untranslatable("LasAppender._create_laz_backend returns something else than what a backend's create_appender built")
+            if isinstance(m, ast.ExceptHandler) and (m.type is None or ast.unparse(m.type) not in ("Exception", "TypeError")):
+                raise Untranslatable("LasAppender._create_laz_backend: handler that is neither `except Exception` (a backend failed) nor `except TypeError` (one backend given)")
+        gb = strip_doc(g.body)
+        if not gb or not all(isinstance(x, ast.Raise) for x in ([gb[-1]] if not isinstance(gb[-1], ast.If) else gb[-1].body + gb[-1].orelse)):
+            raise Untranslatable("LasAppender._create_laz_backend does not end by raising")
+        laspy_names = {"LaspyException", "errors.LaspyException"}
+        if not classes or not (classes <= laspy_names or not (classes & laspy_names)):
+            raise Untranslatable(f"LasAppender._create_laz_backend raises {sorted(classes)}")
+        x = "XLaspy" if classes <= laspy_names else "XOther"
+        return ("(* what constructing a LasAppender on a LAZ-flagged file raises when no backend can append *)\n"
+                f"Definition gen_appender_laz_exn : exn := {x}.\n")
+    o.add("gen_appender_laz_exn", app_laz)
 
     # ---------------- LasData.write ----------------
     def lasdata():
@@ -708,14 +813,34 @@ def gen_ownership(repo):
         ops.sort()
         if len(ops) != 2:
             raise Untranslatable(f"_prefetch_header_data: {len(ops)} reads")
-        if ops[0][2] != "LAS_HEADERS_SIZE['1.1']" or ops[1][2] != "offset_to_data - len(header_bytes)":
+        rest = "offset_to_data - len(header_bytes)"
+        second = None
+        if ops[1][2] == rest:
+            second = "SReadToOffset"
+        else:
+            # the rest of the header, bounded: min(<rest>, <module level integer constant>) in either order
+            e = ast.parse(ops[1][2], mode="eval").body
+            if isinstance(e, ast.Call) and isinstance(e.func, ast.Name) and e.func.id == "min" and len(e.args) == 2 and not e.keywords:
+                other = [a for a in e.args if ast.unparse(a) != rest]
+                if len(other) == 1:
+                    second = other[0]
+        if ops[0][2] != "LAS_HEADERS_SIZE['1.1']" or second is None:
             raise Untranslatable(f"_prefetch_header_data reads {ops[0][2]} then {ops[1][2]}")
         for name in [k for k in sys.modules if k == "laspy" or k.startswith("laspy.")]:
             del sys.modules[name]
         sys.path.insert(0, repo)
         import importlib
-        n0 = int(importlib.import_module("laspy.header").LAS_HEADERS_SIZE["1.1"])
-        return f"Definition gen_prefetch_ops : list sop := [SRead {n0}; SReadToOffset].\n"
+        hm = importlib.import_module("laspy.header")
+        n0 = int(hm.LAS_HEADERS_SIZE["1.1"])
+        if second != "SReadToOffset":
+            if isinstance(second, ast.Constant) and type(second.value) is int:
+                bound = second.value
+            elif isinstance(second, ast.Name) and type(getattr(hm, second.id, None)) is int:
+                bound = getattr(hm, second.id)
+            else:
+                raise Untranslatable(f"_prefetch_header_data: bound of the second read {ast.unparse(second)}")
+            second = f"(SReadToOffsetMax {py2v.z(bound)})"
+        return f"Definition gen_prefetch_ops : list sop := [SRead {n0}; {second}].\n"
     o.add("gen_prefetch_ops", prefetch)
 
     def evlrs_shape():
